@@ -374,6 +374,11 @@ def b_abs(eng, st, args, kwargs, node):
         t = v.term
         return SV(KFloat, z3.If(Fs.is_fin(t), Fs.fin(z3.If(Fs.r(t) >= 0, Fs.r(t), -Fs.r(t))),
                                 z3.If(Fs.is_nan(t), Fs.nan, Fs.pinf)))
+    if isinstance(v.kind, KOpt) and v.kind.inner in (KFloat, KInt):
+        # abs(None) raises TypeError
+        if not eng.spec_mode and st.branch(sort_of(v.kind).is_none(v.term), "abs(None)"):
+            eng.raise_(TypeError, node)
+        return b_abs(eng, st, [SV(v.kind.inner, sort_of(v.kind).v(v.term))], kwargs, node)
     raise Unsupported("abs of %s" % v.kind)
 
 
